@@ -196,6 +196,11 @@ class Runner:
                         if "response_args" in out:
                             return True
                 return False
+            if slot == "bearerAuth":
+                # the offered string as the CLIENT's credential (Authorization: Bearer) at the revocation endpoint; the token to revoke is unknown
+                ep = self.s.get_endpoint("token_revocation")
+                pr = ep.parse_request({"token": "no-such-token"}, http_info={"headers": {"authorization": "Bearer " + s}})
+                return "error" not in pr and bool(pr.get("client_id")) and bool(pr.get("authenticated"))
             if slot == "revoke":
                 ep = self.s.get_endpoint("token_revocation")
                 before = self.projection()
